@@ -674,3 +674,17 @@ func (e *Effects) Describe(f *ssa.Function) string {
 	sort.Strings(cs)
 	return fmt.Sprintf("%s writes {%s}", e.P.FuncName(f), strings.Join(cs, ", "))
 }
+
+// OnlyWriter reports whether fn is the only function with a direct write to class.
+func (e *Effects) OnlyWriter(class string, fn *ssa.Function) bool {
+	found := false
+	for f, d := range e.direct {
+		if d.Classes[class] {
+			if f != fn {
+				return false
+			}
+			found = true
+		}
+	}
+	return found
+}
